@@ -408,7 +408,7 @@ def _tail(case, base, tl):
             if p_gt < bq:
                 return dict(base, status="violation", bucket="lower_tail_bound_invalid", nontrivial=True,
                             detail={"program": text, "goal": f"P({pd.monomial_to_str(case['mono'])} > {case['a']})", "n": n,
-                                    "bound": str(b), "true_probability": fs(p_gt)})
+                                    "bound": str(b), "true_probability": fs(p_gt), "point_mass_at_threshold": all(v == a for v, p in lw)})
     return dict(base, status="ok", nontrivial=informative, counters={"n_with_upper_assumption": holds_u, "n_with_lower_assumption": holds_l})
 
 
@@ -510,6 +510,9 @@ def _cornish(case, base):
 
 
 def classify(case, verdict):
+    # finding C11-F1: the lower bound (E(M)-a)**2 / E((M-a)**2) is 0/0 where M equals a almost surely; the simplified closed form prints 1 there
+    if verdict.get("bucket") == "lower_tail_bound_invalid" and (verdict.get("detail") or {}).get("point_mass_at_threshold"):
+        return "lower_bound_point_mass_at_threshold"
     return None
 
 
